@@ -252,3 +252,16 @@ Proof.
   intros HR HN H. induction H as [|x y R N Hxy _ IH]; [reflexivity|].
   inversion HR; inversion HN; subst. f_equal; [now apply equalLeafs_plain_eq|now apply IH].
 Qed.
+
+(** for leaves without namespaced attributes the result is the new list itself *)
+Theorem leaflist_script_exact T oldE newE P s ctx e :
+  Forall (leafT T) oldE -> Forall (leafT T) newE -> Forall plain_leaf oldE -> Forall plain_leaf newE ->
+  valid_script equalLeafs s oldE newE = true ->
+  e_children e = oldE -> located P ctx (sig_of e) ->
+  exists ops, leaflist_ops P oldE newE s 0 0 = Ok ops
+    /\ apply_ops ops (plug ctx e) = Some (plug ctx (set_children e newE)).
+Proof.
+  intros Ho Hn Hop Hnp Hv HC HL.
+  destruct (leaflist_script_sound T oldE newE Ho Hn P plain_leaf Hop Hnp s ctx e Hv HC HL) as (ops & R & H1 & H2 & H3 & H4).
+  exists ops. split; [exact H1|]. now rewrite <- (Forall2_plain_eq R newE H4 Hnp H3).
+Qed.
